@@ -188,3 +188,34 @@ package ledger
 //@   at Batch.Put assert record_rewritten_with_the_joining_block: recv == batchWrite && str($0) == xldgpb.ConfirmedTablePrefix + str(tx.Txid) && tx.Blockid == blockID
 //@   ensures [C06] no_direct_writes: kvDirect == old(kvDirect) && kvWrites == old(kvWrites)
 //@   loop 1 invariant [C06] nothing_written_yet: kvDirect == old(kvDirect) && kvWrites == old(kvWrites)
+
+// ======================= C01: the two paths of a walk =======================
+// A walk from block `cur` to block `dest` undoes the path from cur up to (excluding) a
+// common ancestor and plays the path from dest up to (excluding) the same ancestor. The
+// ledger is read as a fixed tree while its lock is held: the block stored under an id
+// carries that id, its parent and its height (parentOf / heightOf), a child is one higher
+// than its parent and only the root has no parent - assumptions about what earlier
+// confirmations stored, listed in the evidence.
+//@ spec func parentOf(id string) string
+//@ spec func heightOf(id string) int
+//@ axiom childOneHigher: forall id string :: len(parentOf(id)) > 0 ==> heightOf(parentOf(id)) == heightOf(id) - 1
+//@ func Ledger.queryBlock
+//@   noverify
+//@   assumes stored_under_its_id: result1 == nil ==> result0 != nil && str(result0.Blockid) == str(blockid) && str(result0.PreHash) == parentOf(str(blockid)) && result0.Height == heightOf(str(blockid))
+//@   assumes only_the_root_has_no_parent: result1 == nil && len(result0.PreHash) == 0 ==> str(blockid) == str(l.meta.RootBlockid)
+//@ macro blkIdOf(b) = str(b.Blockid)
+//@ macro pathLinked(p) = (forall i int :: 0 <= i && i < len(p) - 1 ==> blkIdOf(p[i+1]) == str(p[i].PreHash))
+//@ macro pathStored(p) = (forall i int :: 0 <= i && i < len(p) ==> p[i] != nil && str(p[i].PreHash) == parentOf(blkIdOf(p[i])) && p[i].Height == heightOf(blkIdOf(p[i])) && p[i].Height == p[0].Height - i)
+//@ macro pathEndsAbove(p, start) = (len(p) > 0 ? str(p[len(p)-1].PreHash) : str(start))
+//@ func Ledger.FindUndoAndTodoBlocks
+//@   property C01
+//@   uses childOneHigher
+//@   ensures same_block_nothing_to_do: bytesEq(curBlockid, destBlockid) ==> result2 == nil && len(result0) == 0 && len(result1) == 0
+//@   ensures undo_is_the_path_up_from_the_current_block: result2 == nil && len(result0) > 0 ==> blkIdOf(result0[0]) == str(curBlockid) && pathLinked(result0)
+//@   ensures todo_is_the_path_up_from_the_target: result2 == nil && len(result1) > 0 ==> blkIdOf(result1[0]) == str(destBlockid) && pathLinked(result1)
+// PENDING //@   ensures both_paths_end_above_the_same_block: result2 == nil ==> pathEndsAbove(result0, curBlockid) == pathEndsAbove(result1, destBlockid)
+//@   loop 1 invariant undo_path: len(undoBlocks) >= 1 && undoBlocks[len(undoBlocks)-1] == oldTip && blkIdOf(undoBlocks[0]) == str(curBlockid) && pathLinked(undoBlocks) && pathStored(undoBlocks)
+//@   loop 1 invariant todo_path: len(todoBlocks) >= 1 && todoBlocks[len(todoBlocks)-1] == newTip && blkIdOf(todoBlocks[0]) == str(destBlockid) && pathLinked(todoBlocks) && pathStored(todoBlocks)
+//@   loop 1 invariant visited_are_on_the_paths: visited != nil && (forall k string :: in(visited, k) ==> (exists i int :: 0 <= i && i < len(undoBlocks) && blkIdOf(undoBlocks[i]) == k) || (exists j int :: 0 <= j && j < len(todoBlocks) && blkIdOf(todoBlocks[j]) == k))
+//@   loop 1 invariant descents_stay_level: (len(todoBlocks) == 1 || newTip.Height >= oldTip.Height - 1) && (len(undoBlocks) == 1 || oldTip.Height >= newTip.Height - 1)
+//@   loop 1 invariant root_unchanged: rootBlockid == l.meta.RootBlockid
